@@ -93,6 +93,19 @@ func logrusStub(fn *ssa.Function) externalFn {
 			panic(pathEnd{"fatal", "log." + n + ":" + msg})
 		}
 	}
+	if os.Getenv("GOSMT_LOGTRACE") != "" && (strings.HasSuffix(n, "f") || n == "Info" || n == "Warning" || n == "Error") {
+		return func(fr *frame, args []value) value {
+			msg := ""
+			for _, a := range args[1:] {
+				msg += " " + describeValue(a)
+			}
+			if len(msg) > 300 {
+				msg = msg[:300]
+			}
+			P.tracef("log.%s:%s", n, msg)
+			return zeroResult(fn)
+		}
+	}
 	return func(fr *frame, args []value) value { return zeroResult(fn) }
 }
 
@@ -339,6 +352,8 @@ func registerVerifrt() {
 	ext(p+"SchedDeterministic", func(fr *frame, a []value) value { S.deterministic = a[0].(bool); return nil })
 	ext(p+"AtomicSwitch", func(fr *frame, a []value) value { S.atomicSwitch = a[0].(bool); return nil })
 	ext(p+"RaceDetect", func(fr *frame, a []value) value { raceEnable(a[0].(bool)); return nil })
+	ext(p+"HarnessLock", func(fr *frame, a []value) value { raceAcquire("harness-lock"); return nil })
+	ext(p+"HarnessUnlock", func(fr *frame, a []value) value { raceRelease("harness-lock"); return nil })
 	ext(p+"TimersNondet", func(fr *frame, a []value) value { S.timersNondet = a[0].(bool); return nil })
 	ext(p+"Concretize", func(fr *frame, a []value) value { return concretizeInt(a[0], "Concretize") })
 	ext(p+"IsSymbolicRun", func(fr *frame, a []value) value { return true })
@@ -863,7 +878,9 @@ func registerMisc() {
 		return func(fr *frame, a []value) value {
 			f, ok := hookFns["raftnode"]
 			if !ok {
-				panic(engineError{"etcd raft." + kind + " reached without a verifrt.Hook(\"raftnode\", ...) factory"})
+				// no harness factory: the real etcd/raft node is interpreted
+				P.tracef("raft.%s (real etcd/raft)", kind)
+				return useRealBody{}
 			}
 			P.tracef("raft.%s", kind)
 			np := 0
@@ -885,7 +902,25 @@ func registerMisc() {
 			return call(fr.i, fr, 0, f, []value{kind, a[0], np})
 		}
 	}
+	// etcd/raft's randomized election timeout: a harness hook supplies the draw
+	// (deterministic or a path decision); without a hook the middle of the range
+	ext("(*github.com/coreos/etcd/raft.lockedRand).Intn", func(fr *frame, a []value) value {
+		n := int(asInt64(a[1]))
+		if f, ok := hookFns["raft-rand"]; ok {
+			return int(asInt64(call(fr.i, fr, 0, f, []value{n})))
+		}
+		return n / 2
+	})
 	ext("github.com/coreos/etcd/raft.StartNode", raftStart("StartNode"))
+	// strings.Builder's self-copy check goes through abi.NoEscape (unsafe); values are never copied mid-use here
+	ext("(*strings.Builder).copyCheck", noop)
+	ext("strings.Join", func(fr *frame, a []value) value {
+		var parts []string
+		for _, e := range a[0].([]value) {
+			parts = append(parts, e.(string))
+		}
+		return strings.Join(parts, a[1].(string))
+	})
 	ext("github.com/coreos/etcd/raft.RestartNode", raftStart("RestartNode"))
 
 	// gRPC: no network in the model; dialling fails (clients that harnesses need are
